@@ -12,6 +12,7 @@ import enum
 from harness.runner import Result
 
 ID = "C06"
+OPTIMIZED_PASS = True      # the whole search runs once more under python -OO (harness/runner.py)
 LEVEL = "exploration"
 RULE = ("complete enumeration of (response class, outcome) with outcome in {None, BackwardFrame(v), "
         "BackwardFrameError(v) : v in 0..255}; non-trivial = outcome is not None (a frame was received); "
